@@ -271,9 +271,13 @@ def _ib(ctx, i, f, cbs):
 class Build:
     """one real class built from a case in one synthetic module"""
 
-    def __init__(self, case, names=None, aliases=None, poison=(), pool=None):
+    def __init__(self, case, names=None, aliases=None, poison=(), pool=None, clsname=None):
         self.case = case
         self.pool = pool
+        # harness-only naming dimension: what the class itself is called (its __name__ / __qualname__ and the
+        # module-level name the class statement binds); "@load:k" forms are resolved by the caller
+        cn = clsname or case.get("cfg", {}).get("clsName") or "C"
+        self.clsname = cn if not cn.startswith("@") else "C"
         fields = case["fields"]
         self.names = list(names) if names is not None else [f["name"] for f in fields]
         self.ctx = Ctx(self.names)
@@ -380,10 +384,11 @@ class Build:
                 lines.append("def __h_post(self): __h__['post'](self)")
                 lines.append("__h__['attrs']['__attrs_post_init__'] = __h_post")
                 lines.append("del __h_post")
-            lines.append("C = __h__['make_class']('C', __h__['attrs'], bases=(__h__['base'],), **__h__['kw'])")
+            lines.append("__h__['result'] = __h__['make_class'](%r, __h__['attrs'], bases=(__h__['base'],), **__h__['kw'])"
+                         % self.clsname)
         else:
             lines.append("@__h__['deco']")
-            lines.append("class C(__h__['base']):")
+            lines.append("class %s(__h__['base']):" % self.clsname)
             for i, n in enumerate(self.names):
                 lines.append("    %s = __h__['ib'][%d]" % (n, i))
             if c["preInit"]:
@@ -403,13 +408,15 @@ class Build:
         md = self.module.__dict__
         md["__h__"] = h
         md["__builtins__"] = builtins
-        self.poisoned = sorted(n for n in poison if n not in KEEP and n != "C")
+        self.poisoned = sorted(n for n in poison if n not in KEEP)
         for n in self.poisoned:
             md[n] = Poison(n)
         sys.modules[self.modname] = self.module
         try:
             exec(compile(self.source, "<c17 %s>" % self.modname, "exec"), md)
-            self.cls = md["C"]
+            if "result" in h:
+                md[self.clsname] = h["result"]      # what a class statement would have bound (pickle finds it there)
+            self.cls = md[self.clsname]
             ctx.cls = self.cls
             self.afields = list(attr.fields(self.cls))
         except BaseException as e:  # noqa: BLE001
@@ -669,6 +676,8 @@ class Build:
         del ctx.log[:]
 
         def norm_repr(s):
+            if s.startswith(self.clsname + "("):
+                s = "C(" + s[len(self.clsname) + 1:]
             pat = "|".join(re.escape(n) for n in sorted(names, key=len, reverse=True))
             if pat:
                 s = re.sub(r"(?<![A-Za-z0-9_])(%s)=" % pat, lambda m: "f%d=" % names.index(m.group(1)), s)
